@@ -170,7 +170,7 @@ Section Run.
 
   (* filter_type_to_template(T): type_to_template(type(T)) with the loader's memo *)
   Definition select (ts : tlist) (memo : tmemo) (cl : N) : tmemo * option str :=
-    Lookup.bfs bases (tmap cname ts) fuel [cl] [] memo.
+    Lookup.bfs bases (tmap cname ts) Lookup.W_FS fuel [cl] [] memo.   (* one listing, one walk *)
 
   (* _generate_type + _generate_code for the type object o under configuration cf with template listing ts *)
   Definition gen_file (cf : N) (ts : tlist) (memo : tmemo) (u : UniqueNameGenerator_state) (c : cache) (ps : list pp) (o : tyobj)
